@@ -6,6 +6,8 @@ O3  the de-duplication switch only switches the cache
 O4  sibling consistency of the xor-cancellation rewrites: the operand tested for cancellation is not the one returned
 O5  the folding table of optimize_and / optimize_xor (x&0, x&1, x&x, x^0, x^x) returns the right operand
 O7  and-absorption rewrites of push_and ((x1&x2)&(y1&y2) with a shared input, (x1&x2)&x1) keep every input of both operands
+O9  the and-over-xor distribution of push_and looks up (other operand & input 0 of the XOR gate) and (other operand & input 1)
+O10 the and-factoring rewrite of push_xor: four complete input pairings; under a1 == b1 the gate is And(a1, Xor(a2, b2))
 O8  the dead-gate sweep has all roots (outputs, every field of the panic record) and follows every operand of every gate kind
 O6  `negated` records exactly (operand, new gate) and (new gate, operand) under the `== 1` test of the other operand
 """
@@ -607,5 +609,153 @@ def rule_o8(ctx):
     return res
 
 
+def rule_o9(ctx):
+    """x & (y1 ^ y2) -> (x & y1) ^ (x & y2): each looked-up conjunction pairs one input of the XOR gate with the *other* operand."""
+    res = RuleResult("O9", "and-over-xor distribution looks up (other operand & xor input 0) and (other operand & xor input 1)")
+    fid = "circuit::CircuitBuilder::push_and"
+    body = ctx.body(fid)
+
+    def gate_owner(index_bb):
+        """which argument's gate was read by this `self.gates[..]` call"""
+        who = set()
+        t = body.term(index_bb)
+        for a in t["args"][1:]:
+            for (r, p) in body.deep_sources(a, 3):
+                if r == ("arg", 2) and not p:
+                    who.add("x")
+                elif r == ("arg", 3) and not p:
+                    who.add("y")
+        return next(iter(who)) if len(who) == 1 else None
+    n = 0
+    for b, t in body.calls():
+        if mir.last_seg(mir.callee(t) or "") != "push_xor" or body.blocks[b]["cleanup"]:
+            continue
+        keys = []
+        for a in t["args"][1:3]:
+            for (r, p) in body.trace_operand(a):
+                if r[0] == "call" and mir.last_seg(r[2] or "") == "get_cached":
+                    for (r2, p2) in body.trace_operand(body.term(r[1])["args"][1], through={}):
+                        if r2[0] == "agg":
+                            keys.append(body.blocks[r2[1]]["stmts"][r2[2]])
+        if len(keys) != 2:
+            continue
+        n += 1
+        desc = []
+        for st in keys:
+            parts = []
+            for o in st["rv"]["ops"]:
+                c = "?"
+                for (r, p) in body.trace_operand(o, through={}):
+                    if r == ("arg", 2) and not p:
+                        c = "x"
+                    elif r == ("arg", 3) and not p:
+                        c = "y"
+                    elif r[0] == "call" and "as Xor" in p:
+                        c = ("xor", gate_owner(r[1]), p[p.index("as Xor") + 1])
+                parts.append(c)
+            desc.append((st["rv"]["variant"], parts))
+        ok = all(v == "And" for v, _ in desc)
+        inputs = set()
+        for v, parts in desc:
+            xs = [c for c in parts if isinstance(c, tuple)]
+            plain = [c for c in parts if not isinstance(c, tuple)]
+            if len(xs) != 1 or len(plain) != 1 or xs[0][1] is None or plain[0] not in ("x", "y") or plain[0] == xs[0][1]:
+                ok = False
+            else:
+                inputs.add((xs[0][1], xs[0][2]))
+        if ok and len(inputs) == 2 and len({o for o, i in inputs}) == 1 and {i for o, i in inputs} == {"0", "1"}:
+            res.ok({"site": "line %d" % t["sp"][1], "verdict": "xor(cached(other & in0), cached(other & in1))"})
+        else:
+            res.bad(Finding("O9", fid, "distribution of AND over XOR pairs the wrong wires",
+                            "for x & (y1 ^ y2) the two looked-up conjunctions must be (x & y1) and (x & y2) - the other operand with each input of the XOR gate; found %s" % desc, t["sp"]))
+    if n < 2 and not res.findings:
+        raise AnchorMissing("O9: expected the two mirrored and-over-xor rewrites of push_and, found %d" % n)
+    return res
+
+
+def rule_o10(ctx):
+    """(a1 & a2) ^ (b1 & b2) with a1 == b1  ->  a1 & (a2 ^ b2), tried for all four ways of naming the inputs."""
+    res = RuleResult("O10", "and-factoring rewrite of push_xor: the four input pairings are complete and the rewritten gate is shared & (rest ^ rest)")
+    fid = "circuit::CircuitBuilder::push_xor"
+    body = ctx.body(fid)
+    arrays = []
+    for b, blk in enumerate(body.blocks):
+        for i, st in enumerate(blk["stmts"]):
+            if st["k"] == "assign" and st["rv"]["k"] == "aggregate" and st["rv"].get("akind") == "array" and len(st["rv"]["ops"]) == 4:
+                tuples = []
+                for o in st["rv"]["ops"]:
+                    for (r, p) in body.trace_operand(o, through={}):
+                        if r[0] == "agg":
+                            tp = body.blocks[r[1]]["stmts"][r[2]]["rv"]
+                            if tp.get("akind") == "tuple" and len(tp["ops"]) == 4:
+                                row = []
+                                for oo in tp["ops"]:
+                                    c = None
+                                    for (r2, p2) in body.trace_operand(oo, through={}):
+                                        if r2[0] == "call" and "as And" in p2:
+                                            c = (r2[1], p2[p2.index("as And") + 1])
+                                    row.append(c)
+                                tuples.append(tuple(row))
+                if len(tuples) == 4:
+                    arrays.append((b, i, st, tuples))
+    if len(arrays) < 2 and not res.findings:
+        raise AnchorMissing("O10: expected the two pairing tables of the and-factoring rewrite in push_xor, found %d" % len(arrays))
+    for (b, i, st, tuples) in arrays:
+        gates = sorted({c[0] for row in tuples for c in row if c})
+        ok = len(gates) == 2 and all(all(row) for row in tuples)
+        combos = set()
+        if ok:
+            gx, gy = gates
+            for row in tuples:
+                (a1, a2, b1, b2) = row
+                if not (a1[0] == a2[0] == gx and b1[0] == b2[0] == gy and {a1[1], a2[1]} == {"0", "1"} and {b1[1], b2[1]} == {"0", "1"}):
+                    ok = False
+                combos.add((a1[1], b1[1]))
+        if ok and len(combos) == 4:
+            res.ok({"table": "line %d" % st["sp"][1], "verdict": "(x_i, x_other, y_j, y_other) for all four (i, j)"})
+        else:
+            res.bad(Finding("O10", fid, "pairing table of the and-factoring rewrite", "each row must be (an input of x, the other input of x, an input of y, the other input of y) and the four rows must cover all pairings; found %s" % (tuples,), st["sp"]))
+    # the use of a row: test .0 == .2, inner gate Xor(.1, .3), outer gate And(.0, inner)
+
+    def fld(op):
+        out = set()
+        for (r, p) in body.trace_operand(op, through={}):
+            if r[0] == "call" and mir.last_seg(r[2] or "") == "next" and p and p[-1].isdigit():
+                out.add((r[1], p[-1]))
+        return out
+    n = 0
+    for b, blk in enumerate(body.blocks):
+        for st in blk["stmts"]:
+            if st["k"] == "assign" and st["rv"]["k"] == "aggregate" and st["rv"].get("adt") == "circuit::BuilderGate" and st["rv"]["variant"] == "And":
+                ops = st["rv"]["ops"]
+                f0 = fld(ops[0])
+                inner = None
+                for (r, p) in body.trace_operand(ops[1]):
+                    if r[0] == "call" and mir.last_seg(r[2] or "") in ("get_cached", "push_gate"):
+                        for (r2, p2) in body.trace_operand(body.term(r[1])["args"][1], through={}):
+                            if r2[0] == "agg":
+                                inner = body.blocks[r2[1]]["stmts"][r2[2]]["rv"]
+                if not f0 or inner is None:
+                    continue
+                n += 1
+                it = next(iter(f0))[0]
+                i_ops = [fld(o) for o in inner["ops"]]
+                eq_ok = False
+                for b2, blk2 in enumerate(body.blocks):
+                    for st2 in blk2["stmts"]:
+                        if st2["k"] == "assign" and st2["rv"]["k"] == "binop" and st2["rv"]["op"] in ("Eq", "Ne"):
+                            if {frozenset(fld(st2["rv"]["l"])), frozenset(fld(st2["rv"]["r"]))} == {frozenset({(it, "0")}), frozenset({(it, "2")})}:
+                                from .C02 import _dominated_by_edges
+                                if _dominated_by_edges(body, mir.equality_edges(body, st2), b):
+                                    eq_ok = True
+                if f0 == {(it, "0")} and inner.get("variant") == "Xor" and {frozenset(x) for x in i_ops} == {frozenset({(it, "1")}), frozenset({(it, "3")})} and eq_ok:
+                    res.ok({"site": "line %d" % st["sp"][1], "verdict": "under row.0 == row.2: And(row.0, Xor(row.1, row.3))"})
+                else:
+                    res.bad(Finding("O10", fid, "and-factoring builds the wrong gate", "under a1 == b1 the rewritten gate must be And(a1, Xor(a2, b2)); found And(%s, %s(%s)) guarded by a1 == b1: %s" % (sorted(f0), inner.get("variant"), [sorted(x) for x in i_ops], eq_ok), st["sp"]))
+    if n < 2 and not res.findings:
+        raise AnchorMissing("O10: expected the two And(shared, Xor(rest, rest)) constructions in push_xor, found %d" % n)
+    return res
+
+
 def run(ctx):
-    return ctx.run_rules([rule_o1, rule_o2, rule_o3, rule_o4, rule_o5, rule_o6, rule_o7, rule_o8])
+    return ctx.run_rules([rule_o1, rule_o2, rule_o3, rule_o4, rule_o5, rule_o6, rule_o7, rule_o8, rule_o9, rule_o10])
